@@ -239,6 +239,12 @@ func (d DefaultCost) sexp() hx.Sexp {
 // modelRequest renders the `(cost …)` line. coercedFor gives the coerced variables per operation
 // (the model substitutes nothing: arguments are resolved here, per operation).
 func modelRequest(doc *ast.Document, opName string, varsOk bool, max int, dflt DefaultCost, coerced map[string]interface{}) string {
+	pre, post := modelRequestParts(doc, opName, varsOk, dflt, coerced)
+	return pre + strconv.Itoa(max) + post
+}
+
+// modelRequestParts renders everything but the limit: line = pre + <max> + post.
+func modelRequestParts(doc *ast.Document, opName string, varsOk bool, dflt DefaultCost, coerced map[string]interface{}) (pre, post string) {
 	ops := []hx.Sexp{hx.A("ops")}
 	frags := []hx.Sexp{hx.A("frags")}
 	for _, d := range doc.Definitions {
@@ -253,7 +259,9 @@ func modelRequest(doc *ast.Document, opName string, varsOk bool, max int, dflt D
 			frags = append(frags, hx.N("fr", hx.A(d.Name.Name), nodeSexp(d, coerced)))
 		}
 	}
-	return hx.N("cost", hx.A(opName), hx.B(varsOk), hx.I(int64(max)), dflt.sexp(), hx.L(ops...), hx.L(frags...)).String()
+	pre = "(cost " + hx.A(opName).String() + " " + hx.B(varsOk).String() + " "
+	post = " " + dflt.sexp().String() + " " + hx.L(ops...).String() + " " + hx.L(frags...).String() + ")"
+	return pre, post
 }
 
 // ---- the model-free reference cost -------------------------------------------------------------------
